@@ -157,7 +157,16 @@ func (c *kase) reset() {
 	c.op("reset", "ok")
 }
 
+// cacheSig: a stale block served from the cache after a page query went through it
+func (c *kase) cacheSig() string {
+	if c.pageSince {
+		return sigCache + ":page-query"
+	}
+	return sigCache
+}
+
 func (c *kase) purgeCache() {
+	c.pageSince = false
 	store.VerifPurgeBlockCache()
 	c.op("purge", "ok")
 }
@@ -228,11 +237,12 @@ func (c *kase) getBlockByHeight(vw string, h uint64, headerOnly bool) blockObs {
 		return got
 	}
 	if !sameBlock(got, want, !headerOnly) {
+		sigStale := c.cacheSig()
 		c.purgeCache()
 		again := read()
 		c.op(line, again.String())
 		if sameBlock(again, want, !headerOnly) {
-			c.fail(sigCache, fmt.Sprintf("%s answered %q; the committed history as of that view says %s; with the cache purged the same call answers %q", line, got.String(), showRef(want), again.String()))
+			c.fail(sigStale, fmt.Sprintf("%s answered %q; the committed history as of that view says %s; with the cache purged the same call answers %q", line, got.String(), showRef(want), again.String()))
 		} else {
 			sig := "C10:block-read-differs-from-committed-history"
 			extra := c.abandonedBlock(again.hash) && (want == nil || !bytes.Equal(want.hash, again.hash))
@@ -351,7 +361,7 @@ func (c *kase) getQC(vw string, h uint64) {
 	}
 	wb := c.refBlockAt(v, h, false)
 	if !sameBlock(blockObs{h: blk.h, hash: blk.hash}, wb, false) || (wb != nil && ntx != len(wb.txs)) {
-		c.fail(sigCache, fmt.Sprintf("%s attached block %d %x (%d txs); the committed history as of that view says %s", line, blk.h, blk.hash, ntx, showRef(wb)))
+		c.fail(c.cacheSig(), fmt.Sprintf("%s attached block %d %x (%d txs); the committed history as of that view says %s", line, blk.h, blk.hash, ntx, showRef(wb)))
 	}
 	c.o.Count("oracle:qc-read")
 }
@@ -443,6 +453,154 @@ func (c *kase) getTxs(vw string, h uint64) {
 	}
 }
 
+// getBlocks: Store.GetBlocks(PageParams) — a page of blocks, newest first — on the store object or a read-only
+// view. The page itself is compared with the committed history (plus, on the store object, the block pending in
+// the current block); what the query leaves in the process-wide cache is judged by the block reads that follow.
+func (c *kase) getBlocks(vw string, pn, pp int) {
+	s, done := c.view(vw)
+	defer done()
+	if s == nil {
+		return
+	}
+	var got []blockObs
+	total := 0
+	ok := false
+	func() {
+		defer func() { _ = recover() }()
+		page, err := s.GetBlocks(lib.PageParams{PageNumber: pn, PerPage: pp})
+		if err != nil || page == nil {
+			return
+		}
+		total = page.TotalCount
+		if brs, is := page.Results.(*lib.BlockResults); is && brs != nil {
+			for _, b := range *brs {
+				got = append(got, obsOf(b))
+			}
+		}
+		ok = true
+	}()
+	line := fmt.Sprintf("gblocks %s %d %d", vw, pn, pp)
+	if !ok {
+		c.op(line, "err")
+		return
+	}
+	var parts []string
+	for _, b := range got {
+		parts = append(parts, b.String())
+	}
+	res := fmt.Sprintf("n %d total %d", len(got), total)
+	if len(parts) > 0 {
+		res += " | " + strings.Join(parts, " | ")
+	}
+	c.op(line, res)
+	c.pageSince = true
+	c.o.Count("oracle:page-query")
+	// reference: the heights that have a block as of the view
+	v := c.viewVersion(vw)
+	blockAt := func(h uint64) *refBlock {
+		if vw == "live" {
+			b, _ := c.liveBlockAt(h)
+			return b
+		}
+		return c.refBlockAt(v, h, false)
+	}
+	var oldest, newest uint64
+	found := false
+	note := func(e *refBlock) {
+		if !e.hasBlk {
+			return
+		}
+		if !found || e.h < oldest {
+			oldest = e.h
+		}
+		if !found || e.h > newest {
+			newest = e.h
+		}
+		found = true
+	}
+	for i := range c.idx {
+		if c.idx[i].ver <= v {
+			note(&c.idx[i])
+		}
+	}
+	if vw == "live" {
+		for i := range c.pendIdx {
+			note(&c.pendIdx[i])
+		}
+	}
+	wantTotal := 0
+	var want []*refBlock
+	if found {
+		wantTotal = int(newest - oldest + 1)
+		per, num := pp, pn
+		if per == 0 {
+			per = 10
+		}
+		if num == 0 {
+			num = 1
+		}
+		for i := (num - 1) * per; i < (num-1)*per+per && i < wantTotal; i++ {
+			want = append(want, blockAt(newest-uint64(i)))
+		}
+	}
+	same := total == wantTotal && len(got) == len(want)
+	for i := 0; same && i < len(got); i++ {
+		same = sameBlock(got[i], want[i], true)
+	}
+	if !same {
+		var w []string
+		for _, b := range want {
+			w = append(w, showRef(b))
+		}
+		c.fail(sigCache+":page-query", fmt.Sprintf("%s answered %q; the committed history as of that view has total %d and the page [%s]", line, res, wantTotal, strings.Join(w, " | ")))
+	}
+	c.o.Nontrivial(fmt.Sprintf("gblocks view=%v pn=%d pp=%d n=%d total=%d", vw == "live", pn, pp, len(got), total))
+}
+
+// pageQuery: a page query — half the time on a cold cache (purged, as after a restart) — followed by reads of
+// the blocks around the bottom of the page, on the store and on read-only views
+func (c *kase) pageQuery() {
+	r := c.o.Rng
+	if r.Intn(2) == 0 {
+		c.purgeCache()
+	}
+	pp := 1 + r.Intn(10)
+	if r.Intn(12) == 0 {
+		pp = 0
+	}
+	total := int(c.ref.version) + 1
+	pn := r.Intn(total/max(pp, 1) + 2)
+	vw := c.rview()
+	c.getBlocks(vw, pn, pp)
+	// the block below the page, the last of the page, and a random one
+	per, num := pp, pn
+	if per == 0 {
+		per = 10
+	}
+	if num == 0 {
+		num = 1
+	}
+	top := int64(c.viewVersion(vw))
+	if vw == "live" && len(c.pendIdx) != 0 {
+		top++
+	}
+	below := top - int64(num*per)
+	for _, h := range []int64{below, below + 1, int64(c.rheight())} {
+		if h < 0 {
+			continue
+		}
+		switch r.Intn(4) {
+		case 0:
+			c.getBlockByHeight(c.rview(), uint64(h), true)
+		case 1:
+			c.getQC(c.rview(), uint64(h))
+		default:
+			c.getBlockByHeight(c.rview(), uint64(h), false)
+		}
+		c.getBlockByHeight("live", uint64(h), false)
+	}
+}
+
 // rview picks a view: the store itself or a read-only view at some version
 func (c *kase) rview() string {
 	r := c.o.Rng
@@ -473,7 +631,9 @@ func (c *kase) indexPending() {
 func (c *kase) randomIndexRead() {
 	r := c.o.Rng
 	vw, h := c.rview(), c.rheight()
-	switch r.Intn(7) {
+	switch r.Intn(9) {
+	case 7, 8:
+		c.pageQuery()
 	case 0, 1, 2:
 		c.getBlockByHeight(vw, h, false)
 	case 3:
@@ -727,5 +887,28 @@ func cacheWitnesses(o *drv.Out) {
 	commit(c)
 	c.getBlockByHeight("live", 2, false)
 	c.getBlockByHeight("ro:1", 1, false)
+	c.close()
+	// (h) page queries: the block just below a page is loaded header-only by setBlocksTook; on a cold cache
+	// (restart, or block older than the 64 entries) nothing of that may end up under the block's hash key
+	c = mk("blockcache-h-page-query-on-cold-cache")
+	commit(c, h32("tx-h-1a"), h32("tx-h-1b"))
+	commit(c, h32("tx-h-2"))
+	commit(c)
+	c.purgeCache()
+	c.getBlocks("live", 1, 1) // page = block 3; the block below the page is block 2
+	c.getBlockByHeight("live", 2, false)
+	c.getBlockByHeight("ro:2", 2, false)
+	c.getQC("live", 2)
+	c.purgeCache()
+	c.getBlocks("ro:2", 1, 1) // page = block 2; below: block 1
+	c.getBlockByHeight("live", 1, false)
+	c.getBlocks("live", 2, 2) // page 2 of size 2 = block 1
+	c.getBlocks("live", 0, 0)
+	for i := 0; i < 70; i++ { // age the first blocks out of the cache
+		commit(c)
+	}
+	c.getBlocks("live", 36, 2) // bottom of the page is block 2, below it block 1: both cold
+	c.getBlockByHeight("live", 1, false)
+	c.getBlockByHeight("live", 2, false)
 	c.close()
 }
